@@ -1,0 +1,342 @@
+//go:build verif
+
+// Contracts for govc (contract-based deductive verification); comments only.
+package reclaimable
+
+//@ import ri "github.com/NVIDIA/KAI-scheduler/pkg/scheduler/api/resource_info"
+
+// C07: "The reclaiming queue stays within its fair share after receiving the resources, a
+// non-preemptible reclaimer keeps its queue's non-preemptible allocation within deserved quota".
+//@ define withinFair(q *rs.QueueAttributes, res *ri.Resource) bool = rs.leq(q.CPU.Allocated + res.milliCpu, q.CPU.FairShare) && rs.leq(q.Memory.Allocated + res.memory, q.Memory.FairShare) && rs.leq(q.GPU.Allocated + res.gpus + ri.migGpus(res), q.GPU.FairShare)
+//@ define nonPreemptWithinDeserved(q *rs.QueueAttributes, res *ri.Resource) bool = rs.leq(q.CPU.AllocatedNotPreemptible + res.milliCpu, q.CPU.Deserved) && rs.leq(q.Memory.AllocatedNotPreemptible + res.memory, q.Memory.Deserved) && rs.leq(q.GPU.AllocatedNotPreemptible + res.gpus + ri.migGpus(res), q.GPU.Deserved)
+
+//@ func (*Reclaimable).CanReclaimResources
+//@   props C07 C05
+//@   requires reclaimer != nil && reclaimer.RequiredResources != nil
+//@   requires reclaimer.Queue in queues && queues[reclaimer.Queue] != nil && rs.cacheOK(queues[reclaimer.Queue])
+//@   modifies queues[reclaimer.Queue].lastFairShare, queues[reclaimer.Queue].lastDeservedShare
+//@   ensures result == (withinFair(queues[reclaimer.Queue], reclaimer.RequiredResources) && (reclaimer.IsPreemptable || nonPreemptWithinDeserved(queues[reclaimer.Queue], reclaimer.RequiredResources)))
+//@   ensures rs.cacheOK(queues[reclaimer.Queue])
+//@   ensures [cachesKeptOrNew] strategies.cachesKeptOrNew(queues[reclaimer.Queue])
+//@ end
+
+// ratio allocated/fairShare with the documented edge cases (fair share 0 -> +Inf or 0, unlimited -> 0)
+//@ define ratio(a real, f real) real = ite(f == 0.0, ite(a > 0.0, pinf(), 0.0), ite(f == -1.0, 0.0, a / f))
+// C07: "no ancestor of the reclaimer ends both above its own fair share and at least as saturated as the sibling it took from"
+//@ define satBad(ra real, rf real, sa real, sf real, m real) bool = !(rf == -1.0 && sf == -1.0) && ratio(ra, rf) > 1.0 && sf > 0.0 && ratio(ra, rf) * m >= ratio(sa, sf)
+
+// satU is satBad behind an uninterpreted symbol: callers of isFairShareSaturationLowerPerResource reason about the
+// saturation condition as an opaque predicate (the IEEE case analysis stays inside that one unit). Its defining
+// equation is the `assume` of isFairShareSaturationLowerPerResource (a definition of a fresh ghost symbol, not a
+// restriction on inputs).
+//@ declare satU(ra (float64), rf (float64), sa (float64), sf (float64), m (float64)) bool
+
+//@ func fairShareSaturationRatio
+//@   props C07
+//@   ieee
+//@   pure
+//@   ensures result == ratio(allocated, fairShare)
+//@ end
+
+//@ func (*Reclaimable).isFairShareSaturationLowerPerResource
+//@   props C07
+//@   ieee
+//@   assume forall ra (float64), rf (float64), sa (float64), sf (float64), m (float64) :: satU(ra, rf, sa, sf, m) == satBad(ra, rf, sa, sf, m)
+//@   requires r != nil
+//@   pure
+//@   loop 1
+//@     invariant forall k in visited :: !satBad(reclaimerAllocated[k], reclaimerFair[k], siblingAlloc[k], siblingFair[k], r.saturationMultiplier)
+//@   lemma [saturation] result == (forall k in involvedResources :: !satBad(reclaimerAllocated[k], reclaimerFair[k], siblingAlloc[k], siblingFair[k], r.saturationMultiplier))
+//@   ensures result == (forall k in involvedResources :: !satU(reclaimerAllocated[k], reclaimerFair[k], siblingAlloc[k], siblingFair[k], r.saturationMultiplier))
+//@ end
+
+// ---- involved resource names ---------------------------------------------------------------
+// A resource name is "involved" iff some non-nil element of the slice requests a strictly positive
+// amount of it (GPU: the whole-GPU field `gpus`; MIG instances are not looked at by the code).
+//@ define cpuInv(s []*ri.Resource, n int) bool = exists i int :: 0 <= i && i < n && s[i] != nil && s[i].milliCpu > 0.0
+//@ define memInv(s []*ri.Resource, n int) bool = exists i int :: 0 <= i && i < n && s[i] != nil && s[i].memory > 0.0
+//@ define gpuInv(s []*ri.Resource, n int) bool = exists i int :: 0 <= i && i < n && s[i] != nil && s[i].gpus > 0.0
+
+//@ func getInvolvedResourcesNames
+//@   props C07
+//@   fresh
+//@   loop 1
+//@     invariant 0 - 1 <= rangeindex && rangeindex < len(resources)
+//@     invariant involvedResources != nil
+//@     invariant ("CPU" in involvedResources) == cpuInv(resources, rangeindex + 1)
+//@     invariant ("Memory" in involvedResources) == memInv(resources, rangeindex + 1)
+//@     invariant ("GPU" in involvedResources) == gpuInv(resources, rangeindex + 1)
+//@     invariant forall k in involvedResources :: k == "CPU" || k == "Memory" || k == "GPU"
+//@     decreases len(resources) - rangeindex
+//@   ensures result != nil
+//@   ensures ("CPU" in result) == cpuInv(resources, len(resources))
+//@   ensures ("Memory" in result) == memInv(resources, len(resources))
+//@   ensures ("GPU" in result) == gpuInv(resources, len(resources))
+//@   ensures forall k in result :: k == "CPU" || k == "Memory" || k == "GPU"
+//@ end
+
+// ---- queue tree ------------------------------------------------------------------------------
+// Well-formed queue map: every value is non-nil and stored under its own UID (proportion.go builds
+// the map as queues[q.UID] = q).
+//@ define wfQueues(queues map[common_info.QueueID]*rs.QueueAttributes) bool = forall k in queues :: queues[k] != nil && queues[k].UID == k
+// Acyclicity of the parent relation, witnessed by a ranking that strictly decreases towards the root.
+// NOT established by the current code (C10: UpdateQueueHierarchy accepts parent cycles); it is the
+// termination precondition of every parent-chain loop in this package.
+//@ declare rank(q common_info.QueueID) int
+//@ define acyclic(queues map[common_info.QueueID]*rs.QueueAttributes) bool = forall k in queues :: rank(k) >= 0 && (queues[k].ParentQueue in queues ==> rank(queues[k].ParentQueue) < rank(k))
+// Ghost ancestor relation of the queue tree: anc(q, a) <=> a is q itself or an ancestor of q. It is
+// DEFINED by ancRoot+ancStep (on an acyclic map this recursion has exactly one solution, the reflexive-
+// transitive closure of "parent"); ancSelf/ancUp/ancIn/ancSib (two different ancestors-or-self of one queue never have the same parent) are consequences by induction on rank that SMT
+// cannot derive and are therefore stated with the definition. The parent is a bound variable (p) so that
+// instantiating these facts never creates new anc() terms (no matching loops).
+//@ declare anc(q common_info.QueueID, a common_info.QueueID) bool
+//@ define ancSelf(queues map[common_info.QueueID]*rs.QueueAttributes) bool = forall q in queues :: anc(q, q)
+//@ define ancRoot(queues map[common_info.QueueID]*rs.QueueAttributes) bool = forall q common_info.QueueID, a common_info.QueueID :: q in queues && !(queues[q].ParentQueue in queues) ==> (anc(q, a) == (a == q))
+//@ define ancStep(queues map[common_info.QueueID]*rs.QueueAttributes) bool = forall q common_info.QueueID, p common_info.QueueID, a common_info.QueueID :: q in queues && p in queues && queues[q].ParentQueue == p ==> (anc(q, a) == (a == q || anc(p, a)))
+//@ define ancIn(queues map[common_info.QueueID]*rs.QueueAttributes) bool = forall q common_info.QueueID, a common_info.QueueID :: q in queues && anc(q, a) ==> a in queues && rank(a) <= rank(q)
+//@ define ancUp(queues map[common_info.QueueID]*rs.QueueAttributes) bool = forall q common_info.QueueID, a common_info.QueueID, p common_info.QueueID :: q in queues && anc(q, a) && p in queues && queues[a].ParentQueue == p ==> anc(q, p)
+//@ define ancSib(queues map[common_info.QueueID]*rs.QueueAttributes) bool = forall q common_info.QueueID, a common_info.QueueID, b common_info.QueueID :: q in queues && anc(q, a) && anc(q, b) && a != b ==> queues[a].ParentQueue != queues[b].ParentQueue
+//@ define treeOK(queues map[common_info.QueueID]*rs.QueueAttributes) bool = wfQueues(queues) && acyclic(queues) && ancSelf(queues) && ancRoot(queues) && ancStep(queues) && ancIn(queues) && ancUp(queues) && ancSib(queues)
+
+// C07 "taken at the hierarchy level where it diverges": the path is the parent chain of queueId,
+// root first: last element is queues[queueId], each element is followed by one of its children
+// (element i-1 is the parent of element i), the first element has no parent in the map.
+//@ func (*Reclaimable).getHierarchyPath
+//@   props C07 C10
+//@   requires treeOK(queues)
+//@   loop 1
+//@     invariant found ==> queue != nil && queue.UID in queues && queues[queue.UID] == queue && anc(queueId, queue.UID) && queueId in queues
+//@     invariant len(hierarchyPath) == 0 ==> found == (queueId in queues) && (found ==> queue == queues[queueId])
+//@     invariant len(hierarchyPath) > 0 ==> queueId in queues && hierarchyPath[len(hierarchyPath) - 1] == queues[queueId]
+//@     invariant len(hierarchyPath) > 0 ==> found == (hierarchyPath[0].ParentQueue in queues) && (found ==> queue == queues[hierarchyPath[0].ParentQueue])
+//@     invariant forall i int :: 0 <= i && i < len(hierarchyPath) ==> hierarchyPath[i] != nil && hierarchyPath[i].UID in queues && queues[hierarchyPath[i].UID] == hierarchyPath[i] && anc(queueId, hierarchyPath[i].UID)
+//@     invariant forall i int :: 0 < i && i < len(hierarchyPath) ==> hierarchyPath[i].ParentQueue in queues && hierarchyPath[i - 1] == queues[hierarchyPath[i].ParentQueue]
+//@     invariant forall p **rs.QueueAttributes :: !fresh(p) ==> *p == old(*p)
+//@     decreases ite(found, rank(queue.UID) + 1, 0)
+//@   ensures [empty] !(queueId in queues) ==> len(result) == 0
+//@   ensures [leaf] queueId in queues ==> len(result) >= 1 && result[len(result) - 1] == queues[queueId]
+//@   ensures [root] len(result) > 0 ==> !(result[0].ParentQueue in queues)
+//@   ensures [members] forall i int :: 0 <= i && i < len(result) ==> result[i] != nil && result[i].UID in queues && queues[result[i].UID] == result[i] && anc(queueId, result[i].UID)
+//@   ensures [chain] forall i int :: 0 < i && i < len(result) ==> result[i].ParentQueue in queues && result[i - 1] == queues[result[i].ParentQueue]
+//@ end
+
+// C07 "(taken at the hierarchy level where it diverges from the reclaimer's queue)": the returned pair
+// are the ancestors-or-self of the reclaimer's and the reclaimee's queue at the first level where the
+// two root paths differ, i.e. two distinct queues with the same parent (or two distinct top-level
+// queues); when the paths never differ (one queue is an ancestor-or-self of the other) both results are
+// that ancestor.
+//@ define sameParent(queues map[common_info.QueueID]*rs.QueueAttributes, a *rs.QueueAttributes, b *rs.QueueAttributes) bool = (a.ParentQueue in queues) == (b.ParentQueue in queues) && (a.ParentQueue in queues ==> a.ParentQueue == b.ParentQueue)
+//@ func (*Reclaimable).getLeveledQueues
+//@   props C07
+//@   requires treeOK(queues)
+//@   loop 1
+//@     invariant 0 <= i && i <= minLength
+//@     invariant i == 0 ==> reclaimerQueue == nil && reclaimeeQueue == nil
+//@     invariant i > 0 ==> reclaimerQueue == reclaimers[i - 1] && reclaimeeQueue == reclaimees[i - 1] && reclaimerQueue.UID == reclaimeeQueue.UID
+//@     decreases minLength - i
+//@   ensures [nil] (result0 == nil) == !(reclaimerQueueID in queues && reclaimeeQueueID in queues) && (result1 == nil) == (result0 == nil)
+//@   ensures [ancestors] result0 != nil ==> anc(reclaimerQueueID, result0.UID) && anc(reclaimeeQueueID, result1.UID) && queues[result0.UID] == result0 && queues[result1.UID] == result1
+//@   ensures [divergence] result0 != nil && result0.UID != result1.UID ==> sameParent(queues, result0, result1)
+//@   ensures [nested] result0 != nil && result0.UID == result1.UID ==> result0 == result1 && (result0 == queues[reclaimerQueueID] || result0 == queues[reclaimeeQueueID])
+//@ end
+
+// ---- remaining shares ----------------------------------------------------------------------------
+// remaining-share map: every entry is a distinct non-nil quantities object
+//@ define remOK(rem map[common_info.QueueID]rs.ResourceQuantities) bool = (forall a in rem :: rem[a] != nil && allocated(rem[a])) && (forall a common_info.QueueID, b common_info.QueueID :: a in rem && b in rem && a != b ==> rem[a] != rem[b])
+// involved-resource sets: every entry is a distinct non-nil set object
+//@ define invOK(inv map[common_info.QueueID]map[rs.ResourceName]any) bool = (forall a in inv :: inv[a] != nil && allocated(inv[a])) && (forall a common_info.QueueID, b common_info.QueueID :: a in inv && b in inv && a != b ==> inv[a] != inv[b])
+// quantities of a victim, as utils.QuantifyResource computes them
+//@ define qCpu(res *ri.Resource) real = res.milliCpu
+//@ define qMem(res *ri.Resource) real = res.memory
+//@ define qGpu(res *ri.Resource) real = res.gpus + ri.migGpus(res)
+
+// C07 (design): "for every queue touched, remaining[q] = allocated(q) - victims already processed under q":
+// one call subtracts one victim from the reclaimee queue and from every ancestor of it (entries are
+// initialised from Allocated when absent); every other entry is unchanged; the loop terminates.
+//@ func (*Reclaimable).subtractReclaimedResources
+//@   props C07 C10
+//@   requires reclaimedResources != nil && remainingResourcesMap != nil && involvedResourcesByQueue != nil
+//@   requires treeOK(queues)
+//@   requires remOK(remainingResourcesMap)
+//@   requires invOK(involvedResourcesByQueue) && reclaimeeQueueID in involvedResourcesByQueue
+//@   modifies remainingResourcesMap[*], involvedResourcesByQueue[*], family(remainingResourcesMap[reclaimeeQueueID][*]), family(involvedResourcesByQueue[reclaimeeQueueID][*])
+//@   loop 1
+//@     invariant ok ==> queue != nil && queue.UID in queues && queues[queue.UID] == queue && anc(reclaimeeQueueID, queue.UID) && reclaimeeQueueID in queues
+//@     invariant remOK(remainingResourcesMap)
+//@     invariant forall a common_info.QueueID :: reclaimeeQueueID in queues && anc(reclaimeeQueueID, a) && !(ok && anc(queue.UID, a)) ==> a in remainingResourcesMap && remainingResourcesMap[a]["CPU"] == ite(old(a in remainingResourcesMap), old(remainingResourcesMap[a]["CPU"]), queues[a].CPU.Allocated) - qCpu(reclaimedResources) && remainingResourcesMap[a]["Memory"] == ite(old(a in remainingResourcesMap), old(remainingResourcesMap[a]["Memory"]), queues[a].Memory.Allocated) - qMem(reclaimedResources) && remainingResourcesMap[a]["GPU"] == ite(old(a in remainingResourcesMap), old(remainingResourcesMap[a]["GPU"]), queues[a].GPU.Allocated) - qGpu(reclaimedResources)
+//@     invariant forall a common_info.QueueID :: !(reclaimeeQueueID in queues && anc(reclaimeeQueueID, a)) || (ok && anc(queue.UID, a)) ==> (a in remainingResourcesMap) == old(a in remainingResourcesMap) && remainingResourcesMap[a] == old(remainingResourcesMap[a]) && remainingResourcesMap[a]["CPU"] == old(remainingResourcesMap[a]["CPU"]) && remainingResourcesMap[a]["Memory"] == old(remainingResourcesMap[a]["Memory"]) && remainingResourcesMap[a]["GPU"] == old(remainingResourcesMap[a]["GPU"])
+//@     invariant forall a common_info.QueueID :: old(a in remainingResourcesMap) ==> a in remainingResourcesMap && remainingResourcesMap[a] == old(remainingResourcesMap[a])
+//@     invariant forall a common_info.QueueID :: a in remainingResourcesMap && !old(a in remainingResourcesMap) ==> fresh(remainingResourcesMap[a])
+//@     invariant forall m rs.ResourceQuantities, k rs.ResourceName :: !fresh(m) && (forall a common_info.QueueID :: old(a in remainingResourcesMap) ==> old(remainingResourcesMap[a]) != m) ==> m[k] == old(m[k]) && (k in m) == old(k in m)
+//@     invariant invOK(involvedResourcesByQueue)
+//@     invariant forall k rs.ResourceName :: (k in involvedResourcesByQueue[reclaimeeQueueID]) == old(k in involvedResourcesByQueue[reclaimeeQueueID])
+//@     invariant forall a common_info.QueueID :: reclaimeeQueueID in queues && anc(reclaimeeQueueID, a) && !(ok && anc(queue.UID, a)) ==> a in involvedResourcesByQueue
+//@     invariant forall a common_info.QueueID, k rs.ResourceName :: reclaimeeQueueID in queues && anc(reclaimeeQueueID, a) && !(ok && anc(queue.UID, a)) ==> ((k in involvedResourcesByQueue[a]) == (old(k in involvedResourcesByQueue[a]) || old(k in involvedResourcesByQueue[reclaimeeQueueID])))
+//@     invariant forall a common_info.QueueID :: !(reclaimeeQueueID in queues && anc(reclaimeeQueueID, a)) || (ok && anc(queue.UID, a)) ==> (a in involvedResourcesByQueue) == old(a in involvedResourcesByQueue) && involvedResourcesByQueue[a] == old(involvedResourcesByQueue[a])
+//@     invariant forall a common_info.QueueID, k rs.ResourceName :: !(reclaimeeQueueID in queues && anc(reclaimeeQueueID, a)) || (ok && anc(queue.UID, a)) ==> (k in old(involvedResourcesByQueue[a])) == old(k in involvedResourcesByQueue[a])
+//@     invariant forall a common_info.QueueID :: old(a in involvedResourcesByQueue) ==> a in involvedResourcesByQueue && involvedResourcesByQueue[a] == old(involvedResourcesByQueue[a])
+//@     invariant forall a common_info.QueueID :: a in involvedResourcesByQueue && !old(a in involvedResourcesByQueue) ==> fresh(involvedResourcesByQueue[a])
+//@     invariant forall m map[rs.ResourceName]any, k rs.ResourceName :: !fresh(m) && (forall a common_info.QueueID :: old(a in involvedResourcesByQueue) ==> old(involvedResourcesByQueue[a]) != m) ==> (k in m) == old(k in m) && m[k] == old(m[k])
+//@     decreases ite(ok, rank(queue.UID) + 1, 0)
+//@   ensures remOK(remainingResourcesMap)
+//@   ensures [subCPU] forall a common_info.QueueID :: reclaimeeQueueID in queues && anc(reclaimeeQueueID, a) ==> a in remainingResourcesMap && remainingResourcesMap[a]["CPU"] == ite(old(a in remainingResourcesMap), old(remainingResourcesMap[a]["CPU"]), queues[a].CPU.Allocated) - qCpu(reclaimedResources)
+//@   ensures [subMemory] forall a common_info.QueueID :: reclaimeeQueueID in queues && anc(reclaimeeQueueID, a) ==> remainingResourcesMap[a]["Memory"] == ite(old(a in remainingResourcesMap), old(remainingResourcesMap[a]["Memory"]), queues[a].Memory.Allocated) - qMem(reclaimedResources)
+//@   ensures [subGPU] forall a common_info.QueueID :: reclaimeeQueueID in queues && anc(reclaimeeQueueID, a) ==> remainingResourcesMap[a]["GPU"] == ite(old(a in remainingResourcesMap), old(remainingResourcesMap[a]["GPU"]), queues[a].GPU.Allocated) - qGpu(reclaimedResources)
+//@   ensures [others] forall a common_info.QueueID :: !(reclaimeeQueueID in queues && anc(reclaimeeQueueID, a)) ==> (a in remainingResourcesMap) == old(a in remainingResourcesMap) && remainingResourcesMap[a] == old(remainingResourcesMap[a]) && remainingResourcesMap[a]["CPU"] == old(remainingResourcesMap[a]["CPU"]) && remainingResourcesMap[a]["Memory"] == old(remainingResourcesMap[a]["Memory"]) && remainingResourcesMap[a]["GPU"] == old(remainingResourcesMap[a]["GPU"])
+//@   ensures [kept] forall a common_info.QueueID :: old(a in remainingResourcesMap) ==> a in remainingResourcesMap && remainingResourcesMap[a] == old(remainingResourcesMap[a])
+//@   ensures [new] forall a common_info.QueueID :: a in remainingResourcesMap && !old(a in remainingResourcesMap) ==> fresh(remainingResourcesMap[a])
+//@   ensures [rqframe] forall m rs.ResourceQuantities, k rs.ResourceName :: !fresh(m) && (forall a common_info.QueueID :: old(a in remainingResourcesMap) ==> old(remainingResourcesMap[a]) != m) ==> m[k] == old(m[k]) && (k in m) == old(k in m)
+//@   ensures invOK(involvedResourcesByQueue)
+//@   ensures [invAncIn] forall a common_info.QueueID :: reclaimeeQueueID in queues && anc(reclaimeeQueueID, a) ==> a in involvedResourcesByQueue
+//@   ensures [invAnc] forall a common_info.QueueID, k rs.ResourceName :: reclaimeeQueueID in queues && anc(reclaimeeQueueID, a) ==> ((k in involvedResourcesByQueue[a]) == (old(k in involvedResourcesByQueue[a]) || old(k in involvedResourcesByQueue[reclaimeeQueueID])))
+//@   ensures [invOthers] forall a common_info.QueueID :: !(reclaimeeQueueID in queues && anc(reclaimeeQueueID, a)) ==> (a in involvedResourcesByQueue) == old(a in involvedResourcesByQueue) && involvedResourcesByQueue[a] == old(involvedResourcesByQueue[a])
+//@   ensures [invOthersSets] forall a common_info.QueueID, k rs.ResourceName :: !(reclaimeeQueueID in queues && anc(reclaimeeQueueID, a)) ==> (k in involvedResourcesByQueue[a]) == old(k in involvedResourcesByQueue[a])
+//@   ensures [invKept] forall a common_info.QueueID :: old(a in involvedResourcesByQueue) ==> a in involvedResourcesByQueue && involvedResourcesByQueue[a] == old(involvedResourcesByQueue[a])
+//@   ensures [invNew] forall a common_info.QueueID :: a in involvedResourcesByQueue && !old(a in involvedResourcesByQueue) ==> fresh(involvedResourcesByQueue[a])
+//@   ensures [invFrame] forall m map[rs.ResourceName]any, k rs.ResourceName :: !fresh(m) && (forall a common_info.QueueID :: old(a in involvedResourcesByQueue) ==> old(involvedResourcesByQueue[a]) != m) ==> (k in m) == old(k in m) && m[k] == old(m[k])
+//@ end
+
+// ---- boundaries of the reclaiming queues ---------------------------------------------------------
+// every queue's two memoised quantity maps are coherent
+//@ define cachesOK(queues map[common_info.QueueID]*rs.QueueAttributes) bool = forall q in queues :: rs.cacheOK(queues[q]) && allocated(queues[q].lastFairShare) && allocated(queues[q].lastDeservedShare)
+// the memoised maps are not entries of the remaining-share map (so in-place Add/Sub on entries keeps them coherent)
+//@ define cachesApart(queues map[common_info.QueueID]*rs.QueueAttributes, rem map[common_info.QueueID]rs.ResourceQuantities) bool = forall q common_info.QueueID, a common_info.QueueID :: q in queues && a in rem ==> queues[q].lastFairShare != rem[a] && queues[q].lastDeservedShare != rem[a]
+//@ define onlyNames(m map[rs.ResourceName]any) bool = forall k in m :: k == "CPU" || k == "Memory" || k == "GPU"
+
+// share of queue q that the saturation test uses for the reclaiming side: its remaining share if it gave resources, else its allocation
+//@ define baseCpu(queues map[common_info.QueueID]*rs.QueueAttributes, rem map[common_info.QueueID]rs.ResourceQuantities, q common_info.QueueID) real = ite(q in rem, rem[q]["CPU"], queues[q].CPU.Allocated)
+//@ define baseMem(queues map[common_info.QueueID]*rs.QueueAttributes, rem map[common_info.QueueID]rs.ResourceQuantities, q common_info.QueueID) real = ite(q in rem, rem[q]["Memory"], queues[q].Memory.Allocated)
+//@ define baseGpu(queues map[common_info.QueueID]*rs.QueueAttributes, rem map[common_info.QueueID]rs.ResourceQuantities, q common_info.QueueID) real = ite(q in rem, rem[q]["GPU"], queues[q].GPU.Allocated)
+// s is a sibling of q (same parent, different queue) that gave resources
+//@ define sibOf(queues map[common_info.QueueID]*rs.QueueAttributes, rem map[common_info.QueueID]rs.ResourceQuantities, q common_info.QueueID, s common_info.QueueID) bool = s in rem && s != q && queues[s].ParentQueue == queues[q].ParentQueue
+// C07: "no ancestor of the reclaimer ends both above its own fair share and at least as saturated as the sibling it took from",
+// per resource that the reclaimer requests or that was taken under the sibling
+//@ define lvlCpu(queues map[common_info.QueueID]*rs.QueueAttributes, rem map[common_info.QueueID]rs.ResourceQuantities, inv map[common_info.QueueID]map[rs.ResourceName]any, r *Reclaimable, res *ri.Resource, q common_info.QueueID, s common_info.QueueID) bool = ("CPU" in inv[s] || res.milliCpu > 0.0) ==> !satU(baseCpu(queues, rem, q) + qCpu(res), queues[q].CPU.FairShare, rem[s]["CPU"], queues[s].CPU.FairShare, r.saturationMultiplier)
+//@ define lvlMem(queues map[common_info.QueueID]*rs.QueueAttributes, rem map[common_info.QueueID]rs.ResourceQuantities, inv map[common_info.QueueID]map[rs.ResourceName]any, r *Reclaimable, res *ri.Resource, q common_info.QueueID, s common_info.QueueID) bool = ("Memory" in inv[s] || res.memory > 0.0) ==> !satU(baseMem(queues, rem, q) + qMem(res), queues[q].Memory.FairShare, rem[s]["Memory"], queues[s].Memory.FairShare, r.saturationMultiplier)
+// NOTE (finding, reproduced on the real code, see report): "involved" follows getInvolvedResourcesNames, i.e. the whole-GPU
+// field `gpus`, while the quantities use gpus + MIG share. For a MIG-only reclaimer and MIG-only victims GPU is not
+// "involved" and the GPU saturation test is skipped although GPU quantity moves. The property-derived guard would be
+// qGpu(res) > 0 || (GPU quantity taken under s) > 0; with that guard [boundaries] does NOT hold for the code.
+//@ define lvlGpu(queues map[common_info.QueueID]*rs.QueueAttributes, rem map[common_info.QueueID]rs.ResourceQuantities, inv map[common_info.QueueID]map[rs.ResourceName]any, r *Reclaimable, res *ri.Resource, q common_info.QueueID, s common_info.QueueID) bool = ("GPU" in inv[s] || res.gpus > 0.0) ==> !satU(baseGpu(queues, rem, q) + qGpu(res), queues[q].GPU.FairShare, rem[s]["GPU"], queues[s].GPU.FairShare, r.saturationMultiplier)
+//@ define lvlOK(queues map[common_info.QueueID]*rs.QueueAttributes, rem map[common_info.QueueID]rs.ResourceQuantities, inv map[common_info.QueueID]map[rs.ResourceName]any, r *Reclaimable, res *ri.Resource, q common_info.QueueID, s common_info.QueueID) bool = lvlCpu(queues, rem, inv, r, res, q, s) && lvlMem(queues, rem, inv, r, res, q, s) && lvlGpu(queues, rem, inv, r, res, q, s)
+
+//@ func (*Reclaimable).reclaimingQueuesRemainWithinBoundaries
+//@   props C07 C10
+//@   ieee
+//@   requires r != nil && reclaimer != nil && reclaimer.RequiredResources != nil
+//@   requires treeOK(queues) && cachesOK(queues)
+//@   requires remOK(remainingResourcesMap) && cachesApart(queues, remainingResourcesMap)
+//@   requires forall s in remainingResourcesMap :: s in queues && s in involvedResourcesByQueue && involvedResourcesByQueue[s] != nil && allocated(involvedResourcesByQueue[s]) && onlyNames(involvedResourcesByQueue[s])
+//@   modifies family(queues[reclaimer.Queue].lastFairShare), family(queues[reclaimer.Queue].lastDeservedShare), family(remainingResourcesMap[reclaimer.Queue][*])
+//@   loop 1
+//@     invariant found ==> reclaimingQueue != nil && reclaimingQueue.UID in queues && queues[reclaimingQueue.UID] == reclaimingQueue && anc(reclaimer.Queue, reclaimingQueue.UID) && reclaimer.Queue in queues
+//@     invariant requestedQuota != nil && requestedQuota["CPU"] == qCpu(reclaimer.RequiredResources) && requestedQuota["Memory"] == qMem(reclaimer.RequiredResources) && requestedQuota["GPU"] == qGpu(reclaimer.RequiredResources)
+//@     invariant reclaimerInvolvedResources != nil && ("CPU" in reclaimerInvolvedResources) == (reclaimer.RequiredResources.milliCpu > 0.0) && ("Memory" in reclaimerInvolvedResources) == (reclaimer.RequiredResources.memory > 0.0) && ("GPU" in reclaimerInvolvedResources) == (reclaimer.RequiredResources.gpus > 0.0) && onlyNames(reclaimerInvolvedResources)
+//@     invariant forall m map[rs.ResourceName]any, k rs.ResourceName :: !fresh(m) ==> (k in m) == old(k in m) && m[k] == old(m[k])
+//@     invariant cachesOK(queues)
+//@     invariant cachesApart(queues, remainingResourcesMap)
+//@     invariant forall a common_info.QueueID :: !(reclaimer.Queue in queues && anc(reclaimer.Queue, a) && !(found && anc(reclaimingQueue.UID, a))) ==> remainingResourcesMap[a]["CPU"] == old(remainingResourcesMap[a]["CPU"]) && remainingResourcesMap[a]["Memory"] == old(remainingResourcesMap[a]["Memory"]) && remainingResourcesMap[a]["GPU"] == old(remainingResourcesMap[a]["GPU"])
+//@     invariant forall q common_info.QueueID, s common_info.QueueID :: reclaimer.Queue in queues && anc(reclaimer.Queue, q) && !(found && anc(reclaimingQueue.UID, q)) && old(sibOf(queues, remainingResourcesMap, q, s)) ==> old(lvlOK(queues, remainingResourcesMap, involvedResourcesByQueue, r, reclaimer.RequiredResources, q, s))
+//@     invariant forall q common_info.QueueID :: reclaimer.Queue in queues && anc(reclaimer.Queue, q) && !(found && anc(reclaimingQueue.UID, q)) && !reclaimer.IsPreemptable ==> nonPreemptWithinDeserved(queues[q], reclaimer.RequiredResources)
+//@     decreases ite(found, rank(reclaimingQueue.UID) + 1, 0)
+//@   loop 2
+//@     invariant reclaimerInvolvedResources != nil && ("CPU" in reclaimerInvolvedResources) == (reclaimer.RequiredResources.milliCpu > 0.0) && ("Memory" in reclaimerInvolvedResources) == (reclaimer.RequiredResources.memory > 0.0) && ("GPU" in reclaimerInvolvedResources) == (reclaimer.RequiredResources.gpus > 0.0) && onlyNames(reclaimerInvolvedResources)
+//@     invariant forall m map[rs.ResourceName]any, k rs.ResourceName :: !fresh(m) ==> (k in m) == old(k in m) && m[k] == old(m[k])
+//@     invariant cachesOK(queues)
+//@     invariant cachesApart(queues, remainingResourcesMap)
+//@     invariant forall s in visited :: forall q common_info.QueueID :: q == reclaimingQueue.UID && old(sibOf(queues, remainingResourcesMap, q, s)) ==> old(lvlOK(queues, remainingResourcesMap, involvedResourcesByQueue, r, reclaimer.RequiredResources, q, s))
+//@   ensures [boundaries] result ==> (forall q common_info.QueueID, s common_info.QueueID :: reclaimer.Queue in queues && anc(reclaimer.Queue, q) && old(sibOf(queues, remainingResourcesMap, q, s)) ==> old(lvlOK(queues, remainingResourcesMap, involvedResourcesByQueue, r, reclaimer.RequiredResources, q, s)))
+//@   ensures [nonPreemptible] result && !reclaimer.IsPreemptable ==> (forall q common_info.QueueID :: reclaimer.Queue in queues && anc(reclaimer.Queue, q) ==> nonPreemptWithinDeserved(queues[q], reclaimer.RequiredResources))
+//@   ensures [caches] cachesOK(queues)
+//@   ensures [complete] !result ==> !((forall q common_info.QueueID, s common_info.QueueID :: reclaimer.Queue in queues && anc(reclaimer.Queue, q) && old(sibOf(queues, remainingResourcesMap, q, s)) ==> old(lvlOK(queues, remainingResourcesMap, involvedResourcesByQueue, r, reclaimer.RequiredResources, q, s))) && (!reclaimer.IsPreemptable ==> (forall q common_info.QueueID :: reclaimer.Queue in queues && anc(reclaimer.Queue, q) ==> nonPreemptWithinDeserved(queues[q], reclaimer.RequiredResources))))
+//@ end
+
+// ---- victims, one by one -------------------------------------------------------------------------
+// Trigger function for quantified slice facts: `s[i]` is encoded as cell(arr, off + i), and E-matching does not
+// instantiate i := rangeindex + 1 through that arithmetic; at(i) (the identity) gives the solver an arithmetic-free
+// pattern. The axiom is the definition of at.
+//@ declare at(i int) int
+//@ axiom forall x int :: at(x) == x
+//@ declare isQ(e common_info.QueueID) bool
+//@ axiom forall e common_info.QueueID :: isQ(e)
+// every victim of every reclaimee queue is a non-nil resource (the caller, proportion.reclaimableFn, only appends non-nil ones)
+//@ define victimsOK(vm map[common_info.QueueID][]*ri.Resource) bool = forall e in vm :: isQ(e) ==> (forall i int :: 0 <= i && i < len(vm[e]) ==> (at(i) == i ==> vm[e][i] != nil))
+
+// scalar form of the strategies' decision (strategies.FitsReclaimStrategy ensures) on a remaining share (c, m, g)
+//@ define overAllocS(q *rs.QueueAttributes, c real, m real, g real) bool = !(rs.leq(c, rs.allocatable(q.CPU)) && rs.leq(m, rs.allocatable(q.Memory)) && rs.leq(g, rs.allocatable(q.GPU)))
+//@ define overDesS(q *rs.QueueAttributes, c real, m real, g real) bool = !(rs.leq(c, q.CPU.Deserved) && rs.leq(m, q.Memory.Deserved) && rs.leq(g, q.GPU.Deserved))
+//@ define fitsS(res *ri.Resource, rq *rs.QueueAttributes, eq *rs.QueueAttributes, c real, m real, g real) bool = overAllocS(eq, c, m, g) || (strategies.reclaimerWithinQuota(res, rq) && overDesS(eq, c, m, g))
+
+// C07: "resources are taken only from queues above their deserved quota or above their fair share ... (remaining share
+// shrinks victim by victim)". What is proved here: [lastCheck] (inner loop invariant) every subtraction was preceded by
+// a successful strategy decision on the share that remained BEFORE it, taken at the divergence level ([divergenceLevel]),
+// on the very object that the subtraction then updates; a failed decision returns (false, nil, nil) immediately; on
+// success the two maps satisfy the preconditions of reclaimingQueuesRemainWithinBoundaries. The closed form
+// remaining[q] = allocated(q) - sum of the victims under q is NOT stated (needs sums over a map of slices).
+//@ func (*Reclaimable).reclaimResourcesFromReclaimees
+//@   props C07 C10
+//@   requires reclaimer != nil && reclaimer.RequiredResources != nil && reclaimer.Queue in queues
+//@   requires treeOK(queues) && cachesOK(queues)
+//@   requires forall e in reclaimeesResourcesByQueue :: e in queues && len(reclaimeesResourcesByQueue[e]) >= 1
+//@   requires victimsOK(reclaimeesResourcesByQueue)
+//@   modifies family(queues[reclaimer.Queue].lastFairShare), family(queues[reclaimer.Queue].lastDeservedShare)
+//@   loop 1
+//@     invariant remainingResourcesMap != nil && involvedResourcesByQueue != nil && fresh(remainingResourcesMap) && fresh(involvedResourcesByQueue)
+//@     invariant remOK(remainingResourcesMap) && invOK(involvedResourcesByQueue)
+//@     invariant cachesOK(queues) && cachesApart(queues, remainingResourcesMap)
+//@     invariant forall s in remainingResourcesMap :: s in queues && fresh(remainingResourcesMap[s])
+//@     invariant forall s in involvedResourcesByQueue :: fresh(involvedResourcesByQueue[s])
+//@     invariant forall s common_info.QueueID, k rs.ResourceName :: s in involvedResourcesByQueue && k in involvedResourcesByQueue[s] ==> k == "CPU" || k == "Memory" || k == "GPU"
+//@     invariant forall m rs.ResourceQuantities, k rs.ResourceName :: !fresh(m) ==> m[k] == old(m[k]) && (k in m) == old(k in m)
+//@     invariant forall m map[rs.ResourceName]any, k rs.ResourceName :: !fresh(m) ==> (k in m) == old(k in m) && m[k] == old(m[k])
+//@     invariant forall m map[common_info.QueueID]rs.ResourceQuantities, k common_info.QueueID :: !fresh(m) ==> (k in m) == old(k in m) && m[k] == old(m[k])
+//@     invariant forall m map[common_info.QueueID]map[rs.ResourceName]any, k common_info.QueueID :: !fresh(m) ==> (k in m) == old(k in m) && m[k] == old(m[k])
+//@     invariant forall s in remainingResourcesMap :: s in involvedResourcesByQueue
+//@   loop 2
+//@     invariant remainingResourcesMap != nil && involvedResourcesByQueue != nil && fresh(remainingResourcesMap) && fresh(involvedResourcesByQueue)
+//@     invariant remOK(remainingResourcesMap) && invOK(involvedResourcesByQueue)
+//@     invariant cachesOK(queues) && cachesApart(queues, remainingResourcesMap)
+//@     invariant forall s in remainingResourcesMap :: s in queues && fresh(remainingResourcesMap[s])
+//@     invariant forall s in involvedResourcesByQueue :: fresh(involvedResourcesByQueue[s])
+//@     invariant forall s common_info.QueueID, k rs.ResourceName :: s in involvedResourcesByQueue && k in involvedResourcesByQueue[s] ==> k == "CPU" || k == "Memory" || k == "GPU"
+//@     invariant forall m rs.ResourceQuantities, k rs.ResourceName :: !fresh(m) ==> m[k] == old(m[k]) && (k in m) == old(k in m)
+//@     invariant forall m map[rs.ResourceName]any, k rs.ResourceName :: !fresh(m) ==> (k in m) == old(k in m) && m[k] == old(m[k])
+//@     invariant forall m map[common_info.QueueID]rs.ResourceQuantities, k common_info.QueueID :: !fresh(m) ==> (k in m) == old(k in m) && m[k] == old(m[k])
+//@     invariant forall m map[common_info.QueueID]map[rs.ResourceName]any, k common_info.QueueID :: !fresh(m) ==> (k in m) == old(k in m) && m[k] == old(m[k])
+//@     invariant 0 - 1 <= rangeindex && rangeindex < len(reclaimeeQueueReclaimedResources)
+//@     invariant reclaimeeQueueID in reclaimeesResourcesByQueue && len(reclaimeeQueueReclaimedResources) == len(reclaimeesResourcesByQueue[reclaimeeQueueID])
+//@     invariant forall i int :: 0 <= i && i < len(reclaimeeQueueReclaimedResources) ==> (at(i) == i ==> reclaimeeQueueReclaimedResources[i] == reclaimeesResourcesByQueue[reclaimeeQueueID][i])
+//@     invariant isQ(reclaimeeQueueID) && (forall i int :: 0 <= i && i < len(reclaimeesResourcesByQueue[reclaimeeQueueID]) ==> (at(i) == i ==> reclaimeesResourcesByQueue[reclaimeeQueueID][i] != nil))
+//@     invariant forall i int :: 0 <= i && i < len(reclaimeeQueueReclaimedResources) ==> (at(i) == i ==> reclaimeeQueueReclaimedResources[i] != nil)   // at(i) is the E-matching trigger, see `declare at`
+//@     invariant rangeindex + 1 < len(reclaimeeQueueReclaimedResources) ==> at(rangeindex + 1) == rangeindex + 1 && reclaimeeQueueReclaimedResources[rangeindex + 1] != nil
+//@     invariant len(reclaimeeQueueReclaimedResources) >= 1
+//@     invariant reclaimerQueue != nil && reclaimeeQueue != nil && queues[reclaimeeQueue.UID] == reclaimeeQueue && reclaimeeQueue.UID in queues && queues[reclaimerQueue.UID] == reclaimerQueue && reclaimerQueue.UID in queues && reclaimeeQueueID in queues && anc(reclaimeeQueueID, reclaimeeQueue.UID)
+//@     invariant reclaimeeQueue.UID in remainingResourcesMap && remainingResources == remainingResourcesMap[reclaimeeQueue.UID] && reclaimeeQueueID in involvedResourcesByQueue
+//@     invariant [divergenceLevel] anc(reclaimer.Queue, reclaimerQueue.UID) && (reclaimerQueue.UID != reclaimeeQueue.UID ==> sameParent(queues, reclaimerQueue, reclaimeeQueue)) && (reclaimerQueue.UID == reclaimeeQueue.UID ==> reclaimerQueue == reclaimeeQueue && (reclaimerQueue == queues[reclaimer.Queue] || reclaimerQueue == queues[reclaimeeQueueID]))
+//@     invariant forall s in remainingResourcesMap :: s in involvedResourcesByQueue || (rangeindex < 0 && s == reclaimeeQueue.UID)
+//@     invariant [lastCheck] rangeindex >= 0 ==> fitsS(reclaimer.RequiredResources, reclaimerQueue, reclaimeeQueue, remainingResources["CPU"] + qCpu(reclaimeeQueueReclaimedResources[rangeindex]), remainingResources["Memory"] + qMem(reclaimeeQueueReclaimedResources[rangeindex]), remainingResources["GPU"] + qGpu(reclaimeeQueueReclaimedResources[rangeindex]))
+//@     decreases len(reclaimeeQueueReclaimedResources) - rangeindex
+//@   ensures [failFast] !result0 ==> result1 == nil && result2 == nil
+//@   ensures [maps] result0 ==> result1 != nil && result2 != nil && remOK(result1) && invOK(result2)
+//@   ensures [caches] cachesOK(queues) && (result0 ==> cachesApart(queues, result1))
+//@   ensures [keys] result0 ==> (forall s in result1 :: s in queues && s in result2 && result2[s] != nil && onlyNames(result2[s]))
+//@ end
+
+// ---- the validator -------------------------------------------------------------------------------
+// C07 (composition): victims are accepted one by one by the strategy (reclaimResourcesFromReclaimees, [lastCheck] /
+// [divergenceLevel]) and then the saturation ordering and the non-preemptible bound are checked at every ancestor level of the
+// reclaimer (reclaimingQueuesRemainWithinBoundaries). Stated on the inputs here: "a non-preemptible reclaimer keeps its
+// queue's non-preemptible allocation within deserved quota", at every level of the hierarchy. The saturation clause is a
+// statement about the internal remaining-share map and is the postcondition [boundaries] of
+// reclaimingQueuesRemainWithinBoundaries; its closed form over the victims needs sums over a map of slices (not stated).
+//@ func (*Reclaimable).Reclaimable
+//@   props C07 C10
+//@   ieee
+//@   requires r != nil && reclaimer != nil && reclaimer.RequiredResources != nil && reclaimer.Queue in queues
+//@   requires treeOK(queues) && cachesOK(queues)
+//@   requires forall e in reclaimeeResourcesByQueue :: e in queues && len(reclaimeeResourcesByQueue[e]) >= 1
+//@   requires victimsOK(reclaimeeResourcesByQueue)
+//@   modifies family(queues[reclaimer.Queue].lastFairShare), family(queues[reclaimer.Queue].lastDeservedShare), family(queues[reclaimer.Queue].lastFairShare[*])
+//@   ensures [nonPreemptible] result && !reclaimer.IsPreemptable ==> (forall q common_info.QueueID :: anc(reclaimer.Queue, q) ==> nonPreemptWithinDeserved(queues[q], reclaimer.RequiredResources))
+//@   ensures [caches] cachesOK(queues)
+//@ end
